@@ -149,7 +149,7 @@ def fn_breakdown(j):
     return res
 
 
-def run_unit_verus(u, repo):
+def run_unit_verus(u, repo, tier="quick"):
     name = u["name"]
     wd = os.path.join(BUILD, name)
     shutil.rmtree(wd, ignore_errors=True)
@@ -162,7 +162,10 @@ def run_unit_verus(u, repo):
         rs = os.path.join(wd, f"{name}_{mode}.rs")
         mp = os.path.join(wd, f"{name}_{mode}.map.json")
         cmd = [VX, "gen", "--repo", repo, "--template", tmpl, "--out", rs, "--map", mp] + (["--probes"] if mode == "probe" else [])
-        rc, out, err, _ = sh(cmd)
+        # thorough tier: the vacuity pass also probes after every statement of every NESTED block (audit of shim contracts that
+        # contradict each other only inside a branch); such a probe that does not fail is a NOTE, not a verdict, because a
+        # branch may be legitimately unreachable under the function's precondition
+        rc, out, err, _ = sh(cmd, env=dict(os.environ, VX_DEEP_PROBES="1" if (mode == "probe" and tier == "thorough") else "0"))
         if rc != 0:
             res["status"] = "undecided"
             res["notes"].append(f"extraction failed ({mode}): {err.strip() or out.strip()}")
@@ -319,8 +322,13 @@ def run_unit_verus(u, repo):
             for ln in range(s["line_start"], s["line_end"] + 1):
                 if ln in probe_lines:
                     failed_probe_lines.add(ln)
-    vac = [p for ln, p in probe_lines.items() if ln not in failed_probe_lines]
+    vac_all = [p for ln, p in probe_lines.items() if ln not in failed_probe_lines]
+    vac = [p for p in vac_all if p.get("where") != "deep"]
+    deep_vac = [p for p in vac_all if p.get("where") == "deep"]
     res["vacuity"] = {"probes": len(probe_lines), "failed_as_expected": len(failed_probe_lines), "vacuous": [f"probe {p['n']} ({p['where']}) line {p['line']}" for p in vac]}
+    if deep_vac:
+        res["vacuity"]["unreachable_nested_statements"] = [f"probe {p['n']} line {p['line']}" for p in deep_vac]
+        res["notes"].append("audit: nested statements the verifier considers unreachable (legitimate under the precondition, or contradictory shim contracts?): " + ", ".join(res["vacuity"]["unreachable_nested_statements"][:8]))
     if pcompile and res["status"] == "ok":
         res["status"] = "undecided"
         res["notes"].append("probe pass did not compile: " + pcompile[0].get("message", "")[:300])
@@ -361,7 +369,7 @@ def run_unit_verus(u, repo):
 def run_unit(u, repo, tier):
     eng = u.get("engine", "verus")
     if eng == "verus":
-        return run_unit_verus(u, repo)
+        return run_unit_verus(u, repo, tier)
     if eng == "kani":
         sys.path.insert(0, os.path.dirname(os.path.abspath(__file__)))
         import kani_unit
